@@ -491,7 +491,9 @@ def run_cond(s):
             x0 = {"x": b, "sub": b + yv, "mul": b / 2.0, "add": b - PVAL}[body[0]]
             xs.update([x0, x0 - 1e-7, x0 + 1e-7, x0 - 0.1, x0 + 0.1])
     branches_seen = set()
-    for xv in sorted(xs):
+    # every point twice: residuals before the Jacobian (ascending x), then the Jacobian FIRST after the value change
+    # (descending x) - no evaluation order may matter
+    for order, xv in [("rj", x_) for x_ in sorted(xs)] + [("jr", x_) for x_ in sorted(xs, reverse=True)]:
         X.value = xv
         bv = ref_eval(body, xv, yv, PVAL)[0]
         sel = len(s["bounds"])
@@ -506,8 +508,12 @@ def run_cond(s):
                 break
         t = tuple_(BRANCH_EXPRS[s["exprs"][sel]])
         v, dx, dy, _ = ref_eval(t, xv, yv, PVAL)
-        r = m.evaluate_residuals()
-        Jm = m.evaluate_jacobian().toarray()
+        if order == "rj":
+            r = m.evaluate_residuals()
+            Jm = m.evaluate_jacobian().toarray()
+        else:
+            Jm = m.evaluate_jacobian().toarray()
+            r = m.evaluate_residuals()
         row = m.c.index
         counts["cond_points"] += 1
         branches_seen.add(sel)
@@ -525,7 +531,7 @@ def run_cond(s):
         else:
             for var, d, nm in ((X, dx, "x"), (Y, dy, "y")):
                 if not close(Jm[row, var.index], d):
-                    viol.append({"key": "conditional:jacobian", "what": "body %s bounds %s exprs %s at x=%.10g: d/d%s compiled %.12g, branch %d gives %.12g" % (show(body), s["bounds"], s["exprs"], xv, nm, Jm[row, var.index], sel, d)})
+                    viol.append({"key": "conditional:jacobian" + (":evaluated-before-residuals" if order == "jr" else ""), "what": "body %s bounds %s exprs %s at x=%.10g: d/d%s compiled %.12g, branch %d gives %.12g" % (show(body), s["bounds"], s["exprs"], xv, nm, Jm[row, var.index], sel, d)})
                     break
     seen, out = set(), []
     for v in viol:
